@@ -1,7 +1,7 @@
 (* C14 - Merge keeps the newest version of every node and every historical version.
    Statements only.  Model: db/Merge.v. *)
 From Coq Require Import Sorted.
-From KP Require Import Bytes Outcome Tree TreeFacts History Merge MergeProofs.
+From KP Require Import Bytes Outcome Tree TreeFacts History Merge MergeProofs MergeLookup MergeTermination MergeUuids.
 Local Open Scope Z_scope.
 
 (* group: the later modification wins name/notes/icon/settings (the data block) and the other
@@ -30,3 +30,10 @@ Theorem c14_history_union : forall self other h lg,
   /\ (forall x, In x self -> In x h)
   /\ Forall (fun x => x = Warn) lg.
 Proof. exact history_merge_union. Qed.
+
+(* nodes are created only from the source, and only when the destination has not tombstoned them *)
+Theorem c14_created_from_source : forall now d s d' lg u,
+  merge now d s = Ok (d', lg) ->
+  In (Ev EntryCreated u) lg \/ In (Ev GroupCreated u) lg ->
+  In u (tree_uuids (db_root s)) /\ deleted_contains (db_deleted d) u = false.
+Proof. exact merge_creation_events_sound. Qed.
